@@ -80,7 +80,9 @@ ASSUMPTIONS = [
     "payloads compared to 1e-9 (sympy and numpy round differently in the last "
     "place); the library's == is counted as information only",
     "ZX diagrams are evaluated by the harness's own interpreter (Z/X/H/SWAP/"
-    "scalar); sums and bubbles are outside this property's quantifier",
+    "scalar); sums are outside this property's quantifier; bubbles are exercised "
+    "only around tensor diagrams and with entrywise polynomials, which "
+    "commute with substitution",
     "dagger flags are compared as booleans (None, the self-adjoint marker, "
     "reads as False)",
     "when eval(d.subs(s)) crashes because a rotation keeps a symbol-free sympy "
@@ -378,6 +380,14 @@ def positive_expr(rng, syms):
     return rng.choice([1, 2, 0.5]) * x ** 2 + rng.choice([1, 0.5, 2])
 
 
+def radicand(rng, syms):
+    """ Argument of a sqrt scalar: positive, negative or of either sign at the
+    values substituted later (principal branch on both sides). """
+    x = rng.choice(syms)
+    return rng.choice([positive_expr(rng, syms), -positive_expr(rng, syms),
+                       2 * x - 1, x, -x - 0.25])
+
+
 def rand_number(rng):
     return rng.choice([0, 1, -1, 0.5, 2, 1j, 0.25 - 0.5j, 0.3, -1.5,
                        sympy.Rational(1, 2), 1.0])
@@ -502,7 +512,7 @@ def gen_circuit(rng, syms, mixed):
             if flavour == 0:
                 box = g.scalar(rand_expr(rng, syms))
             elif flavour == 1:
-                box = g.sqrt(positive_expr(rng, syms))
+                box = g.sqrt(radicand(rng, syms))
             elif flavour == 2:
                 box = g.scalar(rand_expr(rng, syms) * rng.choice([1j, 1, 0.5 + 0.5j]))
             elif flavour == 3:
@@ -1038,11 +1048,63 @@ def run_case(rng, ctx):
         subs_done.append(style)
     reached += one_lambdify(ctx, rng, arm, d, drepr, classes, present,
                             evaluable, mixed, original, info)
+    if arm == "tensor" and not info.get("has_dict"):
+        bubble_facet(ctx, rng, d, drepr, present)
     if reached:
         ctx.mark(arm + "|" + drepr)
     if ctx.index < 14:
         ctx.sample(arm=arm, diagram=drepr, symbols=safe_repr(sym.sort_symbols(present)),
                    styles=subs_done)
+
+
+def bubble_facet(ctx, rng, d, drepr, present):
+    """
+    The tensor diagram once more, inside a bubble with an entrywise polynomial
+    (which commutes with substitution).  A bubble is a box of a tensor diagram
+    whose parameters are those of its inside: it reports them, substitution
+    and lambdify reach them, and the result evaluates to numbers.
+    """
+    name, func = rng.choice([("x*x+1", lambda x: x * x + 1),
+                             ("2x-1", lambda x: 2 * x - 1),
+                             ("x^3", lambda x: x ** 3)])
+    base = dict(op="bubble", arm="tensor", diagram=drepr, func=name)
+    try:
+        bubble = d.bubble(func=func)
+        tail = type(d).id(bubble.cod)
+        whole = bubble >> tail
+    except Exception as err:
+        ctx.count("bubble-facet-unavailable:" + type(err).__name__)
+        return
+    expect(ctx, "free-symbols-exact", set(bubble.free_symbols) == present
+           and set(whole.free_symbols) == present, box="tensor.Bubble",
+           reported=lambda: safe_repr(sym.sort_symbols(whole.free_symbols)),
+           expected=lambda: safe_repr(sym.sort_symbols(present)), **base)
+    ordered = sym.sort_symbols(present)
+    values = [rand_value(rng, "float") for _ in ordered]
+    pairs = list(zip(ordered, values))
+    try:
+        inner = sym.numeric(numpy.asarray(d.subs(pairs).eval().array).flatten())
+    except Exception:
+        ctx.count("bubble-facet-inside-not-numeric")
+        return
+    want = numpy.array([func(x) for x in inner])
+    for how, make in (("subs", lambda: whole.subs(pairs)),
+                      ("lambdify", lambda: whole.lambdify(*ordered)(*values))):
+        try:
+            closed = make()
+            got = sym.numeric(numpy.asarray(closed.eval().array).flatten())
+        except Exception as err:
+            report(ctx, "total-evaluates-to-numbers", failure="exception",
+                   exception=type(err).__name__, message=str(err)[:300],
+                   how=how, sigma=safe_repr(pairs, 200), **base)
+            continue
+        expect(ctx, "total-reports-no-symbols", not closed.free_symbols,
+               reported=lambda: safe_repr(closed.free_symbols), how=how, **base)
+        expect(ctx, "eval-commutes", got.shape == want.shape
+               and sym.close(got, want), how=how, sigma=safe_repr(pairs, 200),
+               got=lambda: safe_repr(got[:8], 200),
+               expected=lambda: safe_repr(want[:8], 200), **base)
+    ctx.count("bubble-facets")
 
 
 def one_substitution(ctx, rng, arm, d, drepr, classes, present, style,
